@@ -43,6 +43,8 @@ func implC03(line string) string {
 		return implAsiRe(f)
 	case "obj":
 		return implObj(f)
+	case "punct":
+		return implPunct(f)
 	case "numadj":
 		return implNumAdj(f)
 	case "num":
@@ -136,6 +138,11 @@ func addExpr(c *h.Ctx, e *Ex, mode string, key string) {
 	case "both":
 		w.extra = 15
 		trivia = true
+	case "tight":
+		w.tight = true
+	case "tightextra":
+		w.tight = true
+		w.extra = 20
 	}
 	w.pos(0, true, e)
 	src := w.text(trivia)
@@ -145,14 +152,14 @@ func addExpr(c *h.Ctx, e *Ex, mode string, key string) {
 
 func genC03(c *h.Ctx) {
 	g := &gen{r: c.Rng}
-	modes := []string{"min", "extra", "trivia", "both"}
+	modes := []string{"min", "extra", "trivia", "both", "tight", "tightextra"}
 	// exhaustive: every ordered pair of binary operators in both nestings, every unary/postfix/cond/assign against every binary
 	a, b, cc := &Ex{K: "id", Op: "a"}, &Ex{K: "id", Op: "b"}, &Ex{K: "id", Op: "c"}
 	for _, o1 := range binOps {
 		for _, o2 := range binOps {
 			l := &Ex{K: "bin", Op: o2, A: []*Ex{&Ex{K: "bin", Op: o1, A: []*Ex{a, b}}, cc}}
 			r := &Ex{K: "bin", Op: o1, A: []*Ex{a, &Ex{K: "bin", Op: o2, A: []*Ex{b, cc}}}}
-			for _, m := range []string{"min", "extra"} {
+			for _, m := range []string{"min", "extra", "tight"} {
 				addExpr(c, l, m, "pairs:left-nested")
 				addExpr(c, r, m, "pairs:right-nested")
 			}
@@ -163,6 +170,13 @@ func genC03(c *h.Ctx) {
 				addExpr(c, &Ex{K: "un", Op: u, A: []*Ex{inner}}, "min", "pairs:unary-over-binary")
 			}
 			ua := &Ex{K: "un", Op: u, A: []*Ex{a}}
+			addExpr(c, &Ex{K: "bin", Op: o1, A: []*Ex{b, ua}}, "tight", "pairs:binary-over-unary")
+			addExpr(c, &Ex{K: "bin", Op: o1, A: []*Ex{&Ex{K: "post", Op: "dec", A: []*Ex{a}}, ua}}, "tight", "pairs:postfix-binary-unary")
+			for _, u2 := range unOps {
+				if u2 != "preinc" && u2 != "predec" {
+					addExpr(c, &Ex{K: "bin", Op: o1, A: []*Ex{b, &Ex{K: "un", Op: u2, A: []*Ex{ua}}}}, "tight", "pairs:binary-unary-unary")
+				}
+			}
 			addExpr(c, &Ex{K: "bin", Op: o1, A: []*Ex{ua, b}}, "min", "pairs:binary-over-unary")
 			addExpr(c, &Ex{K: "bin", Op: o1, A: []*Ex{b, ua}}, "min", "pairs:binary-over-unary")
 		}
@@ -187,4 +201,5 @@ func genC03(c *h.Ctx) {
 	genAsiRe(c)
 	genNoIn(c)
 	genObj(c)
+	genPunct(c)
 }
